@@ -57,6 +57,10 @@ checks = {
  "C17": ("B", "exhaustive enumeration of (method found by reflection, argument tuple, receiver state) with a zero-result / still-zero oracle",
          "Every exported method in the method sets of *Stack, *Condition and Auxiliary x argument tuples from the typed catalogue (the awkward values wherever `any` is taken) x receiver states {zero, freed, freed twice, Init()-only Condition, nil/empty Auxiliary}; every exported package-level function (table generated from /repo's sources at build time) x awkward arguments, with follow-up calls on what it returns; Reset on every nil pattern of length 0..4 x kinds x capacity x configuration variants; Free on read-only and writable instances. No panic, handle still zero (except Marshal / Condition.Init), zero results, error from Valid/IsEqual, and zero and freed instances must answer identically (differential, no hard-coded sentinel strings).",
          "Trusted: the typed argument catalogue; sentinel strings are compared differentially only.", "§3 C17"),
+
+ "C09": ("A", "exhaustive enumeration of (read-only receiver, method found by reflection, argument tuple), singly and as ordered pairs, with a raw-dump-unchanged oracle",
+         "Every exported method of Stack and Condition (method sets read by reflection at run time) x argument tuples from the typed catalogue is called on every read-only receiver (5 kinds x 3 contents x plain/fully configured incl. mutex, FIFO, capacity, options, policies, logger; 4 Conditions), singly and as ordered pairs on representative receivers; the recursive raw dump (addresses included, nested instances too) must be identical before and after, the only exceptions being the read-only bit itself, the error via SetErr and Condition.Init replacing the handle; Free must fail and keep the instance; clearing the flag must give back exactly the state it was set on, and mutability.",
+         "Trusted: VerifDump as the complete state; the typed argument catalogue.", "§3 C09"),
 }
 not_built = {f"C{i:02d}" for i in range(1,21)} - set(checks)
 m = {
